@@ -448,11 +448,14 @@ class H2Protocol:
         self, request: Union[h2.events.RequestReceived, _SyntheticRequest]
     ) -> None:
         raw_path = b""  # A plain CONNECT request has no :path
+        protocol = b""
         for name, value in request.headers:
             if name == b":method":
                 method = value.decode("ascii").upper()
             elif name == b":path":
                 raw_path = value
+            elif name == b":protocol":
+                protocol = value
 
         try:
             self.priority.insert_stream(request.stream_id)
@@ -492,10 +495,17 @@ class H2Protocol:
             )
         self.stream_buffers[request.stream_id] = StreamBuffer(self.context.event_class)
 
+        headers = filter_pseudo_headers(request.headers)
+        if method == "CONNECT" and protocol != b"websocket":
+            # Only the extended CONNECT (RFC 8441) to a WebSocket is
+            # supported, anything else is (to be answered as) an
+            # invalid WebSocket handshake.
+            headers = [(name, value) for name, value in headers if name != b"sec-websocket-version"]
+
         await self.streams[request.stream_id].handle(
             Request(
                 stream_id=request.stream_id,
-                headers=filter_pseudo_headers(request.headers),
+                headers=headers,
                 http_version="2",
                 method=method,
                 raw_path=raw_path,
